@@ -29,8 +29,8 @@ META = {'design_ref': 'DESIGN.md section 7 / C03',
                'body decoder, hence every partition of a stream gives the same packets, verdict and state (C03_chunking, C03_chunking_partition); no panic site '
                'is reachable from any well-formed decoder state on any bytes (C03_no_panic, C03_packet_decoders_total); a fixed header announcing more than the '
                'effective maximum is rejected by the call that consumes the byte completing the length field with no body byte buffered (C03_size_gate); the '
-               "implementation's reason-code tables equal the specification's on all 256 values (C03_reason_codes_*), except UNSUBACK where 143 is rejected and "
-               '144 accepted (C03_reason_codes_unsuback_refuted); every server-to-client packet kind of MQTT 5 and 3.1.1 produced by the independent specification encoder, in any legal property order and '
+               "implementation's reason-code tables equal the specification's on all 256 values (C03_reason_codes_*); for UNSUBACK they agree except that the "
+               'implementation also accepts 144, a lenient extra (C03_reason_codes_unsuback, _only_144, _spec_accepted); every server-to-client packet kind of MQTT 5 and 3.1.1 produced by the independent specification encoder, in any legal property order and '
                'any compact form, decodes to exactly its content, also through the framing decoder (C03_faithful_packet, C03_faithful_stream). The model is run against Decoder::decode_bytes on generated valid and malformed streams under '
                'random chunkings on every check.',
  'technique': 'machine-checked proof in Coq (induction over byte streams / property lists; exhaustive 256-value tables by vm_compute) + differential '
